@@ -257,6 +257,10 @@ pub fn build_case(ch_all: &mut Ch, fixtures: &[String]) -> Case {
         ch.pick(fixtures).clone()
     } else {
         let mut p = Profile::base();
+        p.overrides = 3;
+        p.wg_override = 4;
+        p.ov_sized_array = 3;
+        p.struct_helpers = 2;
         p.host_structs = (0, 2);
         p.funcs = (0, 2);
         p.stmts = (0, 3);
